@@ -71,7 +71,7 @@ def battery(seed, tier, n):
             t = ("Multiply",) + tuple(rng.choice([("Exponential", ("Variable", a), 2), ("NthPower", ("Variable", a), 2), ("NthRoot", ("Add", ("NthPower", ("Variable", a), 2), ("Constant", 1)), 2),
                                                    ("Logarithm", ("Add", ("NthPower", ("Variable", a), 2), ("Constant", 2)), None)]) for a in names)
         vs = sorted(S.variables(t))
-        if len(vs) < 2 or not C.varfree_in_scope(t):
+        if len(vs) < 2 or not C.tree_in_scope(t):
             continue
         pts = [{v: rng.choice([0.5, 1.5, 2.0, 0.25, 3.0, 1.25, 0.1, 1 / 3, 2, -1.5, -0.5, 1, 1.0, 0.7]) for v in vs} for _ in range(2)]
         if any(R.NORMAL.evaluate(t, p).oos for p in pts):
